@@ -37,6 +37,11 @@ pub struct Sc {
     /// (0 and 1 both mean one): `seed(s); build(); build(); …` must be reproducible as a whole
     #[serde(default)]
     pub batch: u8,
+    /// 0: fresh builders only; 1: one more build on a builder that is re-seeded with the same seed
+    /// after its first batch; 2: one more build on a builder that was used before under another
+    /// seed (see `build_hist`)
+    #[serde(default)]
+    pub history: u8,
 }
 
 pub struct C19;
@@ -50,10 +55,32 @@ enum Obj {
 }
 
 fn build(gen: &Gen, seed: u64, seed_pos: u8, batch: u8) -> Vec<Obj> {
+    build_hist(gen, seed, seed_pos, batch, 0)
+}
+
+/// `history`: what the builder went through besides the seeded build itself.
+///   0  a fresh builder;
+///   1  the same builder is seeded again with the same seed after the batch and builds the batch a
+///      second time - the second batch is returned;
+///   2  a used builder: before it is given the seed and the parameters it has already built an
+///      object under another seed (with the same parameters, with gadgets of full weight, or on a
+///      larger register, depending on the seed).
+/// Same seed and parameters must give the same objects in all three.
+fn build_hist(gen: &Gen, seed: u64, seed_pos: u8, batch: u8, history: u8) -> Vec<Obj> {
     let k = batch.max(1) as usize;
+    let warm = history == 2;
+    let wseed = seed.wrapping_mul(0x9e37_79b9).wrapping_add(77);
+    let wkind = seed % 3;
     match gen {
         Gen::Random { qubits, depth, p, preset } => {
             let mut b = Circuit::random();
+            if warm {
+                // the gate-kind probabilities stay at their defaults here: `clifford_t` below derives
+                // its values from whatever p_cz currently is, so touching them would change the
+                // parameters of the build under test
+                b.seed(wseed).qubits(if wkind == 2 { *qubits + 2 } else { (*qubits).max(2) }).depth(*depth + wkind as usize);
+                let _ = b.build();
+            }
             if seed_pos == 0 {
                 b.seed(seed);
             }
@@ -80,10 +107,19 @@ fn build(gen: &Gen, seed: u64, seed_pos: u8, batch: u8) -> Vec<Obj> {
             if seed_pos == 1 {
                 b.seed(seed);
             }
-            (0..k).map(|_| Obj::Circ(b.build())).collect()
+            let first: Vec<Obj> = (0..k).map(|_| Obj::Circ(b.build())).collect();
+            if history == 1 {
+                b.seed(seed);
+                return (0..k).map(|_| Obj::Circ(b.build())).collect();
+            }
+            first
         }
         Gen::HiddenShift { qubits, clifford_depth, n_ccz } => {
             let mut b = Circuit::random_hidden_shift();
+            if warm {
+                b.seed(wseed).qubits(if wkind == 2 { *qubits + 2 } else { *qubits }).clifford_depth(*clifford_depth + wkind as usize).n_ccz(*n_ccz);
+                let _ = b.build();
+            }
             if seed_pos == 0 {
                 b.seed(seed);
             }
@@ -95,15 +131,29 @@ fn build(gen: &Gen, seed: u64, seed_pos: u8, batch: u8) -> Vec<Obj> {
             if seed_pos == 1 {
                 b.seed(seed);
             }
-            (0..k)
-                .map(|_| {
-                    let (c, s) = b.build();
-                    Obj::CircShift(c, s)
-                })
-                .collect()
+            let mut round = |b: &mut quizx::generate::RandomHiddenShiftCircuitBuilder| -> Vec<Obj> {
+                (0..k)
+                    .map(|_| {
+                        let (c, s) = b.build();
+                        Obj::CircShift(c, s)
+                    })
+                    .collect()
+            };
+            let first = round(&mut b);
+            if history == 1 {
+                b.seed(seed);
+                return round(&mut b);
+            }
+            first
         }
         Gen::PauliGadget { qubits, depth, min_weight, max_weight, phase_denom } => {
             let mut b = Circuit::random_pauli_gadget();
+            if warm {
+                let wq = if wkind == 2 { *qubits + 2 } else { *qubits };
+                let (wmin, wmax) = if wkind == 1 { (wq, wq) } else { (*min_weight, *max_weight) };
+                b.seed(wseed).qubits(wq).depth((*depth).max(1) + wkind as usize).min_weight(wmin).max_weight(wmax).phase_denom(*phase_denom);
+                let _ = b.build();
+            }
             if seed_pos == 0 {
                 b.seed(seed);
             }
@@ -115,10 +165,19 @@ fn build(gen: &Gen, seed: u64, seed_pos: u8, batch: u8) -> Vec<Obj> {
             if seed_pos == 1 {
                 b.seed(seed);
             }
-            (0..k).map(|_| Obj::Circ(b.build())).collect()
+            let first: Vec<Obj> = (0..k).map(|_| Obj::Circ(b.build())).collect();
+            if history == 1 {
+                b.seed(seed);
+                return (0..k).map(|_| Obj::Circ(b.build())).collect();
+            }
+            first
         }
         Gen::StabState { qubits, hash_backend } => {
             let mut b = EquatorialStabilizerStateBuilder::new();
+            if warm {
+                b.seed(wseed).qubits(*qubits + wkind as usize);
+                let _: quizx::vec_graph::Graph = b.build();
+            }
             if seed_pos != 1 {
                 b.seed(seed);
             }
@@ -126,17 +185,25 @@ fn build(gen: &Gen, seed: u64, seed_pos: u8, batch: u8) -> Vec<Obj> {
             if seed_pos == 1 {
                 b.seed(seed);
             }
-            (0..k)
-                .map(|_| {
-                    if *hash_backend {
-                        let g: quizx::hash_graph::Graph = b.build();
-                        Obj::Graph(Snap::of(&g))
-                    } else {
-                        let g: quizx::vec_graph::Graph = b.build();
-                        Obj::Graph(Snap::of(&g))
-                    }
-                })
-                .collect()
+            let mut round = |b: &mut EquatorialStabilizerStateBuilder| -> Vec<Obj> {
+                (0..k)
+                    .map(|_| {
+                        if *hash_backend {
+                            let g: quizx::hash_graph::Graph = b.build();
+                            Obj::Graph(Snap::of(&g))
+                        } else {
+                            let g: quizx::vec_graph::Graph = b.build();
+                            Obj::Graph(Snap::of(&g))
+                        }
+                    })
+                    .collect()
+            };
+            let first = round(&mut b);
+            if history == 1 {
+                b.seed(seed);
+                return round(&mut b);
+            }
+            first
         }
         Gen::SurfaceCode { distance, rounds } => {
             let b = Circuit::surface_code().distance(*distance).rounds(*rounds).build();
@@ -507,7 +574,7 @@ impl Property for C19 {
             "stab_state" => Gen::StabState { qubits: 1 + d.choose("ss.q", 8), hash_backend: d.coin("ss.hb", 1, 2) },
             _ => Gen::SurfaceCode { distance: 2 + d.choose("sc.d", 3), rounds: d.choose("sc.r", 4) },
         };
-        Sc { gen, seed, via_child: d.coin("child", 1, 12), seed_pos: d.choose("seedpos", 3) as u8, batch: 1 + d.choose("batch", 3) as u8 }
+        Sc { gen, seed, via_child: d.coin("child", 1, 12), seed_pos: d.choose("seedpos", 3) as u8, batch: 1 + d.choose("batch", 3) as u8, history: d.choose("history", 3) as u8 }
     }
 
     fn execute(&self, sc: &Sc, _sub: &str, exec: Decider, env: &Env) -> RunOut {
@@ -529,7 +596,7 @@ impl Property for C19 {
         let sp = sc.seed_pos;
         let bt = sc.batch;
         let (res, core) = with_sim(core, move || (build(&g1, seed, sp, bt), build(&g1, seed, (sp + 1) % 3, bt)));
-        let dec = core.dec;
+        let mut dec = core.dec;
         out.steps += 2;
         out.count("ambient_draws_during_seeded_build", core.stats.rng_draws);
         out.count("randomised_maps_during_seeded_build", core.stats.hash_keys);
@@ -569,6 +636,42 @@ impl Property for C19 {
                     .with("generator", name)
                     .with("where", "same_thread"),
             );
+        }
+        // (i') a builder with a past: seeded again after a first batch, or used before under another seed
+        if sc.history > 0 && !matches!(sc.gen, Gen::SurfaceCode { .. }) {
+            let g3 = sc.gen.clone();
+            let hist = sc.history;
+            let core = Core::new(dec, 1);
+            let (res, core) = with_sim(core, move || build_hist(&g3, seed, sp, bt, hist));
+            dec = core.dec;
+            out.steps += 1;
+            match res {
+                Caught::Ok(c) => {
+                    out.probe(if hist == 1 { "builder_reseeded_compared" } else { "used_builder_compared" });
+                    if c != a {
+                        out.violations.push(
+                            Violation::new(
+                                "not_reproducible",
+                                format!(
+                                    "{:?} seed {}: {} gives other objects than a fresh builder with the same seed and parameters",
+                                    sc.gen,
+                                    sc.seed,
+                                    if hist == 1 { "seeding the same builder again after its first batch and building once more" } else { "a builder that has built under another seed before" }
+                                ),
+                            )
+                            .with("generator", name)
+                            .with("where", if hist == 1 { "reseeded_builder" } else { "used_builder" }),
+                        );
+                    }
+                }
+                Caught::Panic(m) => out.violations.push(
+                    Violation::new("panic", format!("{:?} seed {} (builder history {hist}): {m}", sc.gen, sc.seed))
+                        .with("generator", name)
+                        .with("one_qubit_random_circuit", matches!(sc.gen, Gen::Random { qubits: 1, .. }).to_string())
+                        .with("msg", super::c18::norm_msg(&m)),
+                ),
+                Caught::Budget => {}
+            }
         }
         // (ii) another OS thread
         {
